@@ -23,6 +23,23 @@ IGNORED_ATTRS = {
 }
 
 
+# Private attributes that carry state of the object on the current tree.  Any other underscore attribute is
+# implementation detail (typically a memo added by an optimisation): whether it holds the right thing is judged
+# through the results of later calls (repeatability, fresh-world comparison), not by the identity snapshot.
+STATE_PRIVATE = {
+    "_points",
+    "_quarter_times",
+    "_quarter_durations",
+    "_use_musical_beat",
+    "_start_note",
+    "_end_note",
+    "_sym_dur",
+    "_sustain_pedal_threshold",
+    "_ref_attrs",
+    "_accepted_keys",
+}
+
+
 def _prim(x):
     if x is None or isinstance(x, (bool, int, str)):
         return x
@@ -91,7 +108,7 @@ class Snapshotter(object):
             for name in sorted(d):
                 if name in IGNORED_ATTRS:
                     continue
-                if name.startswith("_") and name not in priv:
+                if name.startswith("_") and not name.startswith("__") and (name not in priv or name not in STATE_PRIVATE):
                     continue
                 v = d[name]
                 if callable(v) and not _is_tracked(v):
